@@ -126,7 +126,7 @@ func (c cfgSnapshot) diff(base cfgSnapshot) string {
 func smallSearchPositions(level int) []string {
 	var res []string
 	kinds := []int8{space.Q, space.P, -space.N}
-	if level > 0 {
+	if level == 1 {
 		kinds = []int8{space.Q, space.R, space.P, -space.N, -space.P, -space.R}
 	}
 	space.P3(0, 1, space.P3Opt{Kinds: kinds, NoEmpty: true}, func(p *refchess.Pos) {
@@ -137,6 +137,9 @@ func smallSearchPositions(level int) []string {
 		}
 		if level == 0 && (wk != 0 || (bk%8)%2 != 0 || (bk/8)%2 != 0 || !p.White) {
 			return // quick tier: white king a1, black king on every second file and rank, white to move
+		}
+		if level == 2 && (wk != 0 || (bk%8)%2 != 0) {
+			return // white king a1, black king on every second file, both sides to move
 		}
 		res = append(res, p.FEN())
 	})
